@@ -456,11 +456,12 @@ pub fn chain_state_pub<K: El, V: El>(s: &mut Sess<K, V>, state: u64, size: usize
     chain_state(s, state, size, next)
 }
 
-/// Draw one of the directed states that need no particular hasher: 0..=6, 8, 9.
+/// Draw one of the directed states that need no particular hasher: 0..=6, 8, 9, 10.
 pub fn draw_state(rng: &mut Rng) -> u64 {
-    match rng.below(9) {
+    match rng.below(10) {
         7 => 8,
         8 => 9,
+        9 => 10,
         x => x,
     }
 }
@@ -611,6 +612,21 @@ fn chain_state<K: El, V: El>(s: &mut Sess<K, V>, state: u64, size: usize, next: 
             let st = s.mon.state();
             st.old.map_or(false, |o| o.table.len > 0 && o.table.buckets > st.main.buckets)
         }
+        // a single table in which most control bytes are tombstones (filled up, then most
+        // elements removed again): no resize in flight, nothing is being relocated
+        10 => {
+            if !s.fill_to_full(next, 4096) {
+                return false;
+            }
+            let keys = s.keys_at(false);
+            let keep = 2 + size % 7;
+            for k in keys.iter().skip(keep) {
+                if !s.go(Op::k(Code::Remove, *k)) {
+                    return false;
+                }
+            }
+            s.mon.state().old.is_none()
+        }
         // resize started by reserve: every element in the old table, the main table empty
         _ => {
             if s.mon.map.is_empty() {
@@ -756,6 +772,97 @@ pub fn chains(a: &Args, rep: &mut Report) {
 // ------------------------------------------------------------------------------------------
 
 const ZOPS: usize = 21;
+
+thread_local! {
+    static ZD_LIVE: std::cell::Cell<i64> = const { std::cell::Cell::new(0) };
+}
+/// A zero-sized value *with* a destructor: `size_of == 0` is not `!needs_drop`.
+pub struct Zd(());
+impl Zd {
+    fn new() -> Zd {
+        ZD_LIVE.with(|c| c.set(c.get() + 1));
+        Zd(())
+    }
+}
+impl Clone for Zd {
+    fn clone(&self) -> Zd {
+        Zd::new()
+    }
+}
+impl Drop for Zd {
+    fn drop(&mut self) {
+        ZD_LIVE.with(|c| c.set(c.get() - 1));
+    }
+}
+
+/// The map operations of `zst_apply`, mirrored on a map whose (zero-sized) value has a
+/// destructor; afterwards the number of live values must be the number the map holds.
+fn zd_apply(zmap: &mut griddle::HashMap<(), Zd, Bh>, zp: &mut bool, op: usize) -> Result<(), String> {
+    match op {
+        0 => {
+            zmap.insert((), Zd::new());
+            *zp = true;
+        }
+        1 => {
+            zmap.remove(&());
+            *zp = false;
+        }
+        2 => {
+            let _ = zmap.get(&());
+        }
+        3 => {
+            zmap.entry(()).or_insert_with(Zd::new);
+            *zp = true;
+        }
+        4 => zmap.reserve(10),
+        5 => zmap.reserve(1000),
+        6 => zmap.shrink_to_fit(),
+        7 => {
+            zmap.clear();
+            *zp = false;
+        }
+        8 => {
+            zmap.retain(|_, _| false);
+            *zp = false;
+        }
+        9 => {
+            let _ = zmap.drain().count();
+            *zp = false;
+        }
+        10 => {
+            let c = zmap.clone();
+            *zmap = c;
+        }
+        16 => {
+            let _ = zmap.try_reserve(37);
+        }
+        17 => {
+            *zp = match zmap.entry(()) {
+                griddle::hash_map::Entry::Occupied(o) => {
+                    o.replace_entry_with(|_, _| None);
+                    false
+                }
+                griddle::hash_map::Entry::Vacant(v) => {
+                    v.insert(Zd::new());
+                    true
+                }
+            };
+        }
+        18 => {
+            let _ = zmap.try_reserve(5000);
+        }
+        20 => {
+            *zmap = griddle::HashMap::with_capacity_and_hasher(10, Bh::default());
+            *zp = false;
+        }
+        _ => {}
+    }
+    let live = ZD_LIVE.with(|c| c.get());
+    if live != *zp as i64 || zmap.len() != *zp as usize {
+        return Err(format!("C06: zero-sized values with a destructor: {live} live, the map holds {} (model: {})", zmap.len(), *zp as usize));
+    }
+    Ok(())
+}
 
 fn zst_apply(map: &mut griddle::HashMap<(), (), Bh>, set: &mut griddle::HashSet<(), Bh>, present: &mut (bool, bool), op: usize) -> Result<(), String> {
     let chk = |c: bool, what: &str| if c { Ok(()) } else { Err(format!("{what} disagrees with the model")) };
@@ -916,6 +1023,9 @@ pub fn zst(a: &Args, rep: &mut Report) {
         let mut map: griddle::HashMap<(), (), Bh> = griddle::HashMap::with_hasher(Bh::default());
         let mut set: griddle::HashSet<(), Bh> = griddle::HashSet::with_hasher(Bh::default());
         let mut present = (false, false);
+        ZD_LIVE.with(|c| c.set(0));
+        let mut zmap: griddle::HashMap<(), Zd, Bh> = griddle::HashMap::with_hasher(Bh::default());
+        let mut zpresent = false;
         rep.evaluations += 1;
         let mut nontrivial = false;
         let mut tlines: Vec<String> = Vec::new();
@@ -925,7 +1035,7 @@ pub fn zst(a: &Args, rep: &mut Report) {
             let _ = f.flush();
         }
         for (i, &op) in seq.iter().enumerate() {
-            let r = catch(|| zst_apply(&mut map, &mut set, &mut present, op));
+            let r = catch(|| zst_apply(&mut map, &mut set, &mut present, op).and_then(|()| zd_apply(&mut zmap, &mut zpresent, op)));
             let err = match r {
                 Err(p) => Some(format!("undocumented panic: {p}")),
                 Ok(Err(e)) => Some(e),
@@ -943,6 +1053,9 @@ pub fn zst(a: &Args, rep: &mut Report) {
                 if e.starts_with("C10:") || (op == 18 && rep.prop == "C10") {
                     prop = "C10";
                 }
+                if e.starts_with("C06:") {
+                    prop = "C06";
+                }
                 // a retain that cannot complete on a zero-sized map / set is C09's finding as well
                 if (op == 8 || op == 15) && rep.prop == "C09" {
                     prop = "C09";
@@ -955,6 +1068,7 @@ pub fn zst(a: &Args, rep: &mut Report) {
                     let p = rep.prop.clone();
                     rep.direct_violation(static_prop(&p), &tag, &msg, &[("kind", "zst".to_string()), ("history", format!("{hist:?}"))]);
                 }
+                std::mem::forget(std::mem::replace(&mut zmap, griddle::HashMap::with_hasher(Bh::default())));
                 std::mem::forget(std::mem::replace(&mut map, griddle::HashMap::with_hasher(Bh::default())));
                 std::mem::forget(std::mem::replace(&mut set, griddle::HashSet::with_hasher(Bh::default())));
                 break;
